@@ -84,6 +84,8 @@ type c13Case struct {
 	Path        string    `json:"target_path"`
 	Src         c13Source `json:"source"`
 	UseEnv      bool      `json:"flags_via_environment"`
+	// ExplicitFalse: options that are off are not left out but given with the value false (-pl=false / KEEPPOINTSANDLINES=false)
+	ExplicitFalse bool `json:"off_flags_given_as_false,omitempty"`
 }
 
 func (s c13Source) key() string { b, _ := json.Marshal(s); return string(b) }
@@ -245,6 +247,13 @@ func c13One(texel, work string, shard int, c c13Case, srcCache map[string]string
 	}
 	flag := func(on bool, short, envName string) {
 		if !on {
+			if c.ExplicitFalse && short != "o" {
+				if c.UseEnv {
+					env = append(env, envName+"=false")
+				} else {
+					args = append(args, "-"+short+"=false")
+				}
+			}
 			return
 		}
 		if c.UseEnv {
@@ -354,6 +363,12 @@ func c13Cases(thorough bool) []c13Case {
 	s2b := c13Source{Tables: []string{"parcels"}, Polys: []string{"cw", "small", "pinch"}}
 	for m := 0; m < 8; m++ {
 		cs = append(cs, c13Case{Name: "L2b all flag combinations, in-grid source", TMS: rd, IDs: []int{5, 8}, Page: 1000, Keep: m&1 != 0, Ignore: m&2 != 0, Reverse: m&4 != 0, Path: "o.gpkg", Src: s2b})
+	}
+	// L9: all eight flag combinations with the options that are off GIVEN as false, on the command line and via environment
+	for m := 0; m < 8; m++ {
+		for _, viaEnv := range []bool{false, true} {
+			cs = append(cs, c13Case{Name: "L9 off flags given as false", TMS: rd, IDs: []int{5}, Page: 2, Keep: m&1 != 0, Ignore: m&2 != 0, Reverse: m&4 != 0, Path: "o.gpkg", Src: s2, UseEnv: viaEnv, ExplicitFalse: true})
+		}
 	}
 	// L3: target path shapes x target scenario x ids
 	for _, p := range []string{"out.gpkg", "sub.dir/out.v1.gpkg", "noext", "a.b.c.gpkg", "dir.d/noext"} {
@@ -528,6 +543,6 @@ func runC13() {
 		"states": tot.States, "transitions": tot.States, "traces_validated_against_impl": 0, "samples": tot.Samples,
 		"evaluations": tot.States, "distinct_nontrivial": tot.Nontrivial, "exhaustive": tot.Exhaustive && int(tot.States) == len(cases),
 		"runs_per_sub_lattice": tot.PerLattice,
-		"rule":                 "state = one invocation of the real texel binary; the lattice is the union of fully enumerated sub-lattices: L1 id lists (single, descending, three, duplicate) x keep x reverse x page size {1,2,default}; L2 all 8 flag combinations (command line and environment) on a source with an outside-grid feature and on an in-grid source; L3 5 target path shapes x {fresh, overwrite, pre-existing + overwrite} x ids; L7 overwrite with every non-empty proper subset of the requested targets pre-existing x three id lists; L8 every ordering of every subset of >= 2 of the four table kinds, and sources with one table without rows; L4 every sequence of <= 2 polygon kinds x <= 1 (thorough 2) multipolygon kinds with line table; L6 WebMercatorQuad and WorldMercatorWGS84Quad x two id lists x keep/reverse; thorough L5 page sizes x four tables; each run is compared file by file, table by table, row by row with the reference; non-trivial = sources with at least one (multi)polygon",
+		"rule":                 "state = one invocation of the real texel binary; the lattice is the union of fully enumerated sub-lattices: L1 id lists (single, descending, three, duplicate) x keep x reverse x page size {1,2,default}; L2 all 8 flag combinations (command line and environment) on a source with an outside-grid feature and on an in-grid source; L3 5 target path shapes x {fresh, overwrite, pre-existing + overwrite} x ids; L7 overwrite with every non-empty proper subset of the requested targets pre-existing x three id lists; L9 all 8 flag combinations with the off options given explicitly as false (command line and environment); L8 every ordering of every subset of >= 2 of the four table kinds, and sources with one table without rows; L4 every sequence of <= 2 polygon kinds x <= 1 (thorough 2) multipolygon kinds with line table; L6 WebMercatorQuad and WorldMercatorWGS84Quad x two id lists x keep/reverse; thorough L5 page sizes x four tables; each run is compared file by file, table by table, row by row with the reference; non-trivial = sources with at least one (multi)polygon",
 	})
 }
